@@ -210,6 +210,9 @@ def run(ctx):
     # conformation of the union is completed with every one of them
     ps["frag-3SGB-E-ins48"] = C.chain_lines("3SGB", "E", 19, 16)
     combos.append(("frag-3SGB-E-ins48", "alt-rotamers-AB", 300000, (0, 1, 0), ctx.seed % 2, False))
+    # a part written without chain identifier next to a part in chain A with the same residue numbers
+    ps["frag-1HPX-B0+30"] = C.chain_lines("1HPX", "B", 0, 30)
+    combos.append(("1HPX-A", "frag-1HPX-B0+30", 300000, (1, 0, 0), ctx.seed % 2, "blank-chain"))
     # earlier work in the same process - a run under a parameter file with much larger cut-offs - leaves nothing behind
     from . import c02
     prime = c02.param_file({"desolv_cutoff": 100.0, "buried_cutoff": 80.0, "coulomb_cutoff2": 40.0}, "wide-cutoffs")
@@ -222,6 +225,9 @@ def run(ctx):
         al = ps[a]
         if meet == "same-chain":
             bl = C.shift_numbers(al, 1000)
+            meet = False
+        elif meet == "blank-chain":
+            bl = C.rename_chain(ps[b], sorted({ln[21] for ln in ps[b] if C.is_atom(ln)})[0], " ")
             meet = False
         else:
             bl = fresh_chains(ps[b], {ln[21] for ln in al if C.is_atom(ln)})
